@@ -432,6 +432,7 @@ def run(ctx):
         ("excess-behind-near-duplicate", [-2] * 4 + [F(3999999999, 10**10)] + [F(2, 5)] * 5 + [1] * 4, None),
         ("excess-behind-near-duplicate1", [1, 1, F(23, 20) - F(1, 10**16), F(23, 20), F(23, 20), F(23, 20), F(10, 7), F(10, 7)], None),
         ("near-duplicate-valid", [0, 0, 0, F(1, 2), F(1, 2) + F(1, 10**12), 1, 1, 1], None),      # witness of the recorded finding
+        ("head+degree", [-1, 0, 0, 0, 1, 2, 2, 2], 2), ("head+degree1", [0, 1, 2, 2], 1), ("tail+degree", [0, 0, 1, 2], 1),
         ("deg0", [0, F(1, 2), 1], None), ("deg0dup", [0, F(1, 2), F(1, 2), 1], None), ("head-tail", [-1, 0, 0, 1, 1], None),
     ]
     for label, v, d in ctor:
@@ -461,6 +462,14 @@ def run(ctx):
         else:
             w.insert(0, w[0] - 1)
         run_case(ctx, ser(dict(kind="ctor", label="mutated-" + mode, v=w, deg=None)))
+        # the same list with the degree given explicitly: the degree of the vector it was made from, the degree either end
+        # alone would suggest, one more, one less (and the untouched vector with its own / a wrong degree)
+        p0 = kv_info(v)[0]
+        cands = [p0, p0, w.count(w[-1]) - 1, w.count(w[0]) - 1, p0 + 1, p0 - 1]
+        dx = rng.choice([d_ for d_ in cands if d_ >= 0])
+        run_case(ctx, ser(dict(kind="ctor", label="mutated-" + mode + "+degree", v=w, deg=dx)))
+        if i % 3 == 0:
+            run_case(ctx, ser(dict(kind="ctor", label="valid+degree", v=v, deg=rng.choice([p0, p0, p0 + 1, max(0, p0 - 1)]))))
     # affine maps of float vectors at the edge of the float range (corpus first, then random)
     fm = [([0, 0, 0.5, 4, 4], ("shift", "1e16")), ([0, 0, 4, 4.5, 5, 12, 12], ("iadd", "1e16")), ([0, 0, 0.25, 1, 1], ("scale", "5e-324")),
           ([-1e308, -1e308, 0, 1e308, 1e308], ("normalize", None)), ([0, 0, 0.5, 1, 1], ("shift", "nan")),
